@@ -708,17 +708,35 @@ impl IdlArcSqliteWriteTransaction<'_> {
 
         // Ensure the db commit succeeds first.
         db.commit()?;
+        #[cfg(feature = "verif-hooks")]
+        crate::verif::pause("arc_commit.after_db");
 
         // Can no longer fail from this point.
         op_ts_max.commit();
+        #[cfg(feature = "verif-hooks")]
+        crate::verif::pause("arc_commit.after_op_ts_max");
         name_cache.commit();
+        #[cfg(feature = "verif-hooks")]
+        crate::verif::pause("arc_commit.after_name_cache");
         idx_exists_cache.commit();
+        #[cfg(feature = "verif-hooks")]
+        crate::verif::pause("arc_commit.after_idx_exists");
         idl_cache.commit();
+        #[cfg(feature = "verif-hooks")]
+        crate::verif::pause("arc_commit.after_idl_cache");
         allids.commit();
+        #[cfg(feature = "verif-hooks")]
+        crate::verif::pause("arc_commit.after_allids");
         maxid.commit();
+        #[cfg(feature = "verif-hooks")]
+        crate::verif::pause("arc_commit.after_maxid");
         keyhandles.commit();
+        #[cfg(feature = "verif-hooks")]
+        crate::verif::pause("arc_commit.after_keyhandles");
         // Unlock the entry cache last to remove contention on everything else.
         entry_cache.commit();
+        #[cfg(feature = "verif-hooks")]
+        crate::verif::pause("arc_commit.done");
 
         Ok(())
     }
@@ -1363,11 +1381,23 @@ impl IdlArcSqlite {
     pub fn read(&self) -> Result<IdlArcSqliteReadTransaction<'_>, OperationError> {
         // IMPORTANT! Always take entrycache FIRST
         let entry_cache_read = self.entry_cache.read();
+        #[cfg(feature = "verif-hooks")]
+        crate::verif::pause("arc_read.after_entry_cache");
         let db_read = self.db.read()?;
+        #[cfg(feature = "verif-hooks")]
+        crate::verif::pause("arc_read.after_db");
         let idl_cache_read = self.idl_cache.read();
+        #[cfg(feature = "verif-hooks")]
+        crate::verif::pause("arc_read.after_idl_cache");
         let name_cache_read = self.name_cache.read();
+        #[cfg(feature = "verif-hooks")]
+        crate::verif::pause("arc_read.after_name_cache");
         let idx_exists_cache_read = self.idx_exists_cache.read();
+        #[cfg(feature = "verif-hooks")]
+        crate::verif::pause("arc_read.after_idx_exists");
         let allids_read = self.allids.read();
+        #[cfg(feature = "verif-hooks")]
+        crate::verif::pause("arc_read.after_allids");
 
         Ok(IdlArcSqliteReadTransaction {
             db: db_read,
